@@ -27,6 +27,11 @@ type Params struct {
 	// subscription and the live publishes at Clock[H]. nil: time stands still (nothing expires).
 	Clock []int
 	AllA  bool // every history message is published to topic a
+	// ManualGC (with Clock): GCInterval is 0 (no automatic collection) and the application calls GC() itself
+	// after the history, at Clock[H], while the provider is idle.
+	ManualGC bool
+	// NoData > 0: the history messages k with k % NoData == 1 have no data field (an ID and a comment only)
+	NoData int
 }
 
 func (p Params) Name() string {
@@ -37,6 +42,12 @@ func (p Params) Name() string {
 	ck := ""
 	if p.Clock != nil {
 		ck = fmt.Sprintf("-clock%v-allA%v", p.Clock, p.AllA)
+		if p.ManualGC {
+			ck += "-manualgc"
+		}
+	}
+	if p.NoData > 0 {
+		ck += fmt.Sprintf("-nodata%d", p.NoData)
 	}
 	return fmt.Sprintf("%s-auto%v-h%d-present%d-two%v-slow%v%s", kind, p.Auto, p.H, p.Present, p.TwoSubs, p.Slow, ck)
 }
@@ -77,6 +88,7 @@ func body(p Params) func() {
 		w := &world{JL: &jh.JoeLog{}, P: p}
 		vrt.SetUser(w)
 		var inner sse.Replayer
+		var valid *sse.ValidReplayer
 		now := 0 // tenths of a second
 		if p.Valid {
 			ttl := time.Hour
@@ -89,7 +101,10 @@ func body(p Params) func() {
 			}
 			base := time.Date(2030, 1, 1, 0, 0, 0, 0, time.UTC)
 			v.Now = func() time.Time { return base.Add(time.Duration(now) * 100 * time.Millisecond) }
-			inner = v
+			if p.ManualGC {
+				v.GCInterval = 0
+			}
+			inner, valid = v, v
 		} else {
 			f, err := sse.NewFiniteReplayer(p.N, p.Auto)
 			if err != nil {
@@ -100,10 +115,14 @@ func body(p Params) func() {
 		j := &sse.Joe{Replayer: &jh.Replayer{JL: w.JL, Inner: inner}}
 		jh.PreInitFor(j, p.Auto)
 		mk := func(tag string, k int) *sse.Message {
-			if p.Auto {
-				return jh.Msg(tag, "")
+			build := jh.Msg
+			if p.NoData > 0 && k < p.H && k%p.NoData == 1 {
+				build = jh.MsgNoData
 			}
-			return jh.Msg(tag, idOf(p, k))
+			if p.Auto {
+				return build(tag, "")
+			}
+			return build(tag, idOf(p, k))
 		}
 		// history, sequentially
 		for k := 0; k < p.H; k++ {
@@ -118,6 +137,10 @@ func body(p Params) func() {
 		}
 		if p.Clock != nil {
 			now = p.Clock[p.H]
+		}
+		if p.ManualGC {
+			// every Publish has returned, so the provider is past Put and nobody else uses the replayer now
+			valid.GC()
 		}
 		nsub := 1
 		if p.TwoSubs {
@@ -341,6 +364,17 @@ func Scenarios(tier string) []run.Scenario {
 			}
 		}
 	}
+	// histories in which every second / third message has no data field (checkpoints: ID and comment only)
+	for _, c := range []cfg{{false, 3}, {true, 0}} {
+		for _, auto := range []bool{false, true} {
+			for h := 2; h <= 5; h++ {
+				for present := -1; present < h; present++ {
+					add(Params{Valid: c.valid, Auto: auto, N: c.n, H: h, Present: present, NoData: 2, AllA: true})
+					add(Params{Valid: c.valid, Auto: auto, N: c.n, H: h, Present: present, NoData: 3})
+				}
+			}
+		}
+	}
 	// ValidReplayer with a moving clock (TTL 2 s, default GCInterval 0.5 s): events expire, a collection is due
 	// at the subscription, the buffer shrinks
 	clocks := [][]int{
@@ -361,12 +395,39 @@ func Scenarios(tier string) []run.Scenario {
 			}
 		}
 	}
+	// the same with manual collection (GCInterval 0, GC() called after the history): bursts that expire leaving
+	// 4 / 3 / 8 / 1 events in rings of 16 / 16 / 32 / 8
+	burst := func(expired, alive int) []int {
+		var ck []int
+		for i := 0; i < expired; i++ {
+			ck = append(ck, 0)
+		}
+		for i := 0; i < alive; i++ {
+			ck = append(ck, 15)
+		}
+		return append(ck, 21)
+	}
+	manual := [][]int{burst(12, 4), burst(10, 3), burst(5, 2), clocks[2], clocks[5]}
+	if tier == "thorough" {
+		manual = append(manual, burst(24, 8), burst(7, 1), burst(13, 4), burst(11, 4))
+	}
+	for _, ck := range manual {
+		h := len(ck) - 1
+		for _, auto := range []bool{false, true} {
+			for present := -1; present < h; present++ {
+				if present >= 0 && present < h-6 && present%4 != 0 {
+					continue // of the long-expired IDs every fourth
+				}
+				add(Params{Valid: true, Auto: auto, H: h, Present: present, Clock: ck, AllA: true, ManualGC: true})
+			}
+		}
+	}
 	return out
 }
 
 var Check = &run.Check{
 	ID: "C04", Level: "model_checking",
-	Rule: "Scenarios: real FiniteReplayer (N=2,3; thorough 2,3,4) / ValidReplayer behind a recording wrapper, manual and automatic IDs, a history of h = 0..2N+1 (valid: 0..7, thorough 9) sequential publishes on alternating topics, then one or two subscribers presenting every ID of the history (oldest, middle, newest, evicted), a never-issued ID (text, large number) or none, racing a publisher of three more messages; plus the ValidReplayer on a moving clock (events expire, a collection is due at the subscription, the ring shrinks); all interleavings (unbounded, state-key pruning). Reference: a list of the last N accepted events.",
+	Rule: "Scenarios: real FiniteReplayer (N=2,3; thorough 2,3,4) / ValidReplayer behind a recording wrapper, manual and automatic IDs, a history of h = 0..2N+1 (valid: 0..7, thorough 9) sequential publishes on alternating topics, then one or two subscribers presenting every ID of the history (oldest, middle, newest, evicted), a never-issued ID (text, large number) or none, racing a publisher of three more messages; histories in which every second / third message has no data field; plus the ValidReplayer on a moving clock (events expire, a collection is due at the subscription, the ring shrinks; also with GCInterval 0 and GC() called by the application after bursts of 7-16 (thorough 32) events of which 1-4 (8) survive); all interleavings (unbounded, state-key pruning). Reference: a list of the last N accepted events.",
 	Assumptions: []string{
 		"schedules are explored at the granularity of synchronisation operations under sequential consistency (DESIGN.md 2.1)",
 		"with automatic IDs, presenting an ID that was issued but already evicted is outside the property: only the universal clauses (order, uniqueness, topic match, boundary) are checked there",
